@@ -1,57 +1,168 @@
 """C03 -- limits and assertions gate every instance (DESIGN.md section 5, C03)."""
 import json
+import math
 import os
 from . import common
 from . import modelgen as MG
 from . import c01 as C01
-from .common import cfloat, cnat, clist, cpair, cbool
+from .common import cfloat, cnat, clist, cpair, cbool, cstr
 
 MANIFEST = {
-    "text": "Coq 8.16 theorems over the C01 tree model extended with prior limits and assertion trees: an instance is produced iff every "
-            "value is within its prior's limits and every assertion of every level holds (verdict = the inequalities evaluated on the "
-            "numbers, incl. chained and arithmetic operands), otherwise the fit exception (limit first), and ignoring limits is total; "
-            "tied to the code by bit-exact vm_compute correspondence of verdicts and instances on generated models x assertion sets x "
-            "vectors inside/on/outside limits, with two-sided abstraction of the assertion objects, plus a direct oracle",
-    "note": "Trusted: Coq kernel + vm_compute; harness abstraction of live assertion objects; exception classes mapped to a small enum. "
-            "Not modelled: exception_override test switch, jax; unit-vector and random-instance routes are checked by the oracle only.",
-    "technique": "machine-checked proof in Coq (hand-written gate model over the C01 tree) + vm_compute correspondence",
+    "text": "Coq 8.16 theorems over the C01 tree model extended with prior limits and assertion objects attached to levels "
+            "(Model, Collection, CompoundPrior): the code's level-by-level check with ignore_assertions handed down (status, "
+            "recursive) equals by induction on the tree the flat specification 'every value within its limits and every inequality "
+            "true of the numbers' whenever each level path leads to a level of the tree and construction and assertions are defined "
+            "(no division by zero, operands are parameters of the model); then instance iff limits and all inequalities hold, otherwise "
+            "the fit exception (limit first), ignoring is total; the comparison operators build assertions meaning the inequalities "
+            "written (simple, reflected, two-link chains); three-link chains, undefined operands and the path-argument route are shown "
+            "NOT to satisfy the statement by refuted witnesses. Tied to the code by bit-exact vm_compute correspondence: operators "
+            "(recipe -> built object), add_assertion (levels), verdict + FitException flag + instance of instance_from_vector "
+            "strict/ignored and of instance_from_path_arguments, on generated models x assertion sets x vectors; plus a direct oracle",
+    "note": "Trusted: Coq kernel + vm_compute; harness abstraction of live model / assertion objects; exception classes mapped to a small "
+            "enum. Oracle-only (no tree node in the shared model): subtraction, unary minus, abs in operands; unit-vector and "
+            "random-instance routes. Out of scope (declared): instance_from_path_arguments / instance_from_prior_name_arguments "
+            "(not vector routes; modelled and measured only), Python's native a < b < c, exception_override switch, jax.",
+    "technique": "machine-checked proof in Coq (hand-written level-by-level model over the C01 tree, induction on the tree) + vm_compute correspondence",
 }
 
 unhex = MG.unhex
+INF = float("inf")
+# Flip to True when proposed_fixes/C03-chain-further has been applied to /repo: the correspondence then uses the
+# prepared model variant (Model.check_case_chain_fix: CompoundAssertion can be compared again) and the finding
+# chain-3-links in known_findings/C03.json must be set to "fixed".
+CHAIN_FIX_APPLIED = False
+COPS = {"<": "CLt", "<=": "CLe", ">": "CGt", ">=": "CGe"}
 
 
-def gen_operand(rng, g, npool):
+# ----------------------------------------------------------------------------------------------
+# generator
+# ----------------------------------------------------------------------------------------------
+
+def gen_atom(rng, npool, allow_const=True):
+    if allow_const and rng.random() < 0.3:
+        return {"t": "const", "v": rng.choice([0.5, 2.0, 4.0, -1.5, 1.0]).hex()}
+    return {"t": "prior", "ref": rng.randrange(npool)}
+
+
+def gen_operand(rng, npool, n_foreign=0, depth=0):
     r = rng.random()
-    if r < 0.6:
+    if n_foreign and r < 0.25:
+        return {"t": "foreign", "i": rng.randrange(n_foreign)}
+    if r < 0.55:
         return {"t": "prior", "ref": rng.randrange(npool)}
-    if r < 0.8:
+    if r < 0.72:
         return {"t": "const", "v": (rng.randint(-8, 12) / 4.0).hex()}
-    op = rng.choice(["+", "*", "/"])
-    l = {"t": "prior", "ref": rng.randrange(npool)}
-    rr = {"t": "const", "v": rng.choice([0.5, 2.0, 4.0]).hex()} if rng.random() < 0.5 else {"t": "prior", "ref": rng.randrange(npool)}
+    if r < 0.78:
+        return {"t": "unary", "op": rng.choice(["neg", "abs"]), "a": {"t": "prior", "ref": rng.randrange(npool)}}
+    op = rng.choice(["+", "*", "/", "-", "-"])
+    l = gen_operand(rng, npool, 0, depth + 1) if (depth == 0 and rng.random() < 0.15) else gen_atom(rng, npool)
+    rr = gen_atom(rng, npool)
+    if l["t"] == "const" and rr["t"] == "const":
+        if rng.random() < 0.5:
+            l = {"t": "prior", "ref": rng.randrange(npool)}
+        else:
+            rr = {"t": "prior", "ref": rng.randrange(npool)}
+    if op == "/" and rr["t"] == "const" and rng.random() < 0.06:
+        rr = {"t": "const", "v": (0.0).hex()}      # p / 0.0: ZeroDivisionError whatever the vector
     return {"t": "arith", "op": op, "l": l, "r": rr}
 
 
-def gen_cmp(rng, g, npool):
-    l = gen_operand(rng, g, npool)
-    r = gen_operand(rng, g, npool)
+def arith_like(e):
+    return e["t"] in ("prior", "arith", "unary", "foreign")
+
+
+def gen_cmp(rng, npool, n_foreign=0):
+    l = gen_operand(rng, npool, n_foreign)
+    r = gen_operand(rng, npool, n_foreign)
     if l["t"] == "const" and r["t"] == "const":
         l = {"t": "prior", "ref": rng.randrange(npool)}
     return {"k": "cmp", "op": rng.choice(["<", "<=", ">", ">="]), "l": l, "r": r}
 
 
+def gen_chain(rng, npool, first, n_foreign=0, last_const=None):
+    op2 = rng.choice(["<", "<=", ">", ">="])
+    if first["k"] == "cmp":
+        # the operand compared again (greater side for </<=, lower side for >/>=) must not be a plain constant when
+        # `other` is one: `(p < 0.5) < 2.0` compares two floats and stores a bool inside a CompoundAssertion, which the
+        # library does not support (not a shape users write)
+        lower, greater = (first["l"], first["r"]) if first["op"] in ("<", "<=") else (first["r"], first["l"])
+        pivot = greater if op2 in ("<", "<=") else lower
+        other = gen_operand(rng, npool, n_foreign)
+        if pivot["t"] == "const" and other["t"] == "const":
+            other = {"t": "prior", "ref": rng.randrange(npool)}
+    else:
+        other = gen_operand(rng, npool, n_foreign)
+        if last_const is True and other["t"] != "const":
+            other = {"t": "const", "v": (rng.randint(-8, 12) / 4.0).hex()}
+        if last_const is False and not arith_like(other):
+            other = {"t": "prior", "ref": rng.randrange(npool)}
+    return {"k": "chain", "first": first, "op": op2, "other": other}
+
+
+def chain_links(a):
+    return 1 + chain_links(a["first"]) if a["k"] == "chain" else (1 if a["k"] == "cmp" else 0)
+
+
 def levels_of(e, path=()):
+    """Paths of every level (Model, Collection, CompoundPrior held as a model attribute) of a program."""
     out = []
     if e["t"] == "model":
         out.append(list(path))
         for arg, kind, extra in MG.SIGNATURES[e["cls"]]:
             if kind == "class":
                 out += levels_of(e["kw"][arg], path + (arg,))
+            elif kind == "float" and e["kw"][arg]["t"] == "arith":
+                out.append(list(path + (arg,)))
     elif e["t"] == "coll":
         out.append(list(path))
         for k, sub in MG.resolve_copies(e)["items"]:
             out += levels_of(sub, path + (k,))
     return out
+
+
+def is_arith_level(root, path):
+    e = root
+    for k in path:
+        if e["t"] == "coll":
+            e = dict((str(a), b) for a, b in MG.resolve_copies(e)["items"])[k]
+        else:
+            e = e["kw"][k]
+    return e["t"] == "arith"
+
+
+def gen_vector(rng, pool):
+    vec = []
+    for s in pool:
+        lo, hi = unhex(s["lo"]), unhex(s["hi"])
+        mid = unhex(s["mean"]) if "mean" in s else (lo + hi) / 2
+        sig = unhex(s["sigma"]) if "sigma" in s else 1.0
+        flo = lo if lo > -INF else mid - 4 * sig       # a finite stand-in for an infinite limit
+        fhi = hi if hi < INF else mid + 4 * sig
+        r = rng.random()
+        if r < 0.1:
+            v = lo
+        elif r < 0.2:
+            v = hi
+        elif r < 0.27:
+            v = flo - rng.choice([2.0 ** -40, 0.25, 3.0])
+        elif r < 0.34:
+            v = fhi + rng.choice([2.0 ** -40, 0.25, 3.0])
+        elif r < 0.37:
+            v = float("nan")
+        elif r < 0.40:
+            v = rng.choice([INF, -INF, 1.5e308, -1.5e308])
+        else:
+            v = flo + (fhi - flo) * rng.randint(0, 8) / 8.0
+        vec.append(v)
+    return vec
+
+
+def hexv(v):
+    if v != v:
+        return "nan"
+    if v in (INF, -INF):
+        return "inf" if v > 0 else "-inf"
+    return v.hex()
 
 
 def gen_cases(ctx, n):
@@ -64,79 +175,120 @@ def gen_cases(ctx, n):
         npool = len(prog["pool"])
         if npool == 0 or npool > 24:
             continue
+        # gaussian priors with infinite limits (the library default) on one or both sides
+        for s in prog["pool"]:
+            if s["family"] == "gaussian" and rng.random() < 0.5:
+                side = rng.choice(["lo", "hi", "both"])
+                if side in ("lo", "both"):
+                    s["lo"] = "-inf"
+                if side in ("hi", "both"):
+                    s["hi"] = "inf"
         lv = levels_of(prog["root"])
+        n_foreign = 1 if rng.random() < 0.06 else 0
         asserts = []
         for _ in range(rng.choice([0, 1, 1, 2, 3])):
             r = rng.random()
-            if r < 0.62:
-                a = gen_cmp(rng, g, npool)
-            elif r < 0.9:
-                first = gen_cmp(rng, g, npool)
-                op2 = rng.choice(["<", "<=", ">", ">="])
-                # the operand compared again (greater side for </<=, lower side for >/>=) must not be a
-                # plain constant: `(p < 0.5) < 2.0` compares two floats and stores a bool inside a
-                # CompoundAssertion, which the library does not support (not a shape users write)
-                lower, greater = (first["l"], first["r"]) if first["op"] in ("<", "<=") else (first["r"], first["l"])
-                pivot = greater if op2 in ("<", "<=") else lower
-                if pivot["t"] == "const":
-                    pivot.clear()
-                    pivot.update({"t": "prior", "ref": rng.randrange(npool)})
-                a = {"k": "chain", "first": first, "op": op2, "other": gen_operand(rng, g, npool)}
+            if r < 0.52:
+                a = gen_cmp(rng, npool, n_foreign)
+            elif r < 0.76:
+                a = gen_chain(rng, npool, gen_cmp(rng, npool, n_foreign), n_foreign)
+            elif r < 0.88:
+                two = gen_chain(rng, npool, gen_cmp(rng, npool), 0)
+                a = gen_chain(rng, npool, two, 0, last_const=rng.random() < 0.3)
+            elif r < 0.91:
+                x, y = rng.sample(range(npool), 2) if npool >= 2 else (0, 0)
+                a = {"k": "native", "op": rng.choice(["<", "<="]), "x": {"t": "prior", "ref": x}, "y": {"t": "prior", "ref": y},
+                     "z": gen_atom(rng, npool)}
             else:
                 a = {"k": "lit", "v": rng.random() < 0.5}
             asserts.append({"level": rng.choice(lv), "a": a})
-        vectors = []
-        for _ in range(4):
-            vec = []
-            for s in prog["pool"]:
-                lo, hi = unhex(s["lo"]), unhex(s["hi"])
-                r = rng.random()
-                if r < 0.1:
-                    v = lo
-                elif r < 0.2:
-                    v = hi
-                elif r < 0.27:
-                    v = lo - rng.choice([2.0 ** -40, 0.25, 3.0])
-                elif r < 0.34:
-                    v = hi + rng.choice([2.0 ** -40, 0.25, 3.0])
-                else:
-                    v = lo + (hi - lo) * rng.randint(0, 8) / 8.0
-                vec.append(v)
-            vectors.append([v.hex() for v in vec])
-        if rng.random() < 0.1:
-            vectors.append(vectors[0][:-1])        # wrong length
+        vectors = [[hexv(v) for v in gen_vector(rng, prog["pool"])] for _ in range(4)]
+        r = rng.random()
+        if r < 0.08:
+            vectors.append(vectors[0][:-1])                       # too short
+        elif r < 0.16:
+            vectors.append(vectors[0] + [rng.choice(vectors[0])])  # too long
         units = [[rng.choice([0.0, 0.25, 0.5, 0.75, 1.0, rng.random()]).hex() for _ in prog["pool"]] for _ in range(2)]
-        cases.append({"program": prog, "asserts": asserts, "vectors": vectors, "units": units, "n_random": 2})
+        wrap = rng.choice([None, None, None, None, None, "list", "dict", "copy"])
+        cases.append({"program": prog, "asserts": asserts, "vectors": vectors, "units": units, "n_random": 2,
+                      "n_foreign": n_foreign, "wrap": wrap, "numpy": rng.random() < 0.1})
     return cases
 
 
-def norm_assert(a):
-    """Expected assertion object (lt/le/and/lit form) for a program assertion; None = dropped."""
+# ----------------------------------------------------------------------------------------------
+# two-sided abstraction: what the program denotes vs. what the live objects are
+# ----------------------------------------------------------------------------------------------
+
+def expected_operand(e, npool):
+    """Abstract operand object the operators are expected to build (a - b is a + (-b); c - a is (-a) + c)."""
+    t = e["t"]
+    if t == "prior":
+        return {"t": "prior", "ref": e["ref"]}
+    if t == "foreign":
+        return {"t": "prior", "ref": npool + e["i"]}
+    if t == "const":
+        return {"t": "const", "v": e["v"]}
+    if t == "unary":
+        return {"t": "unary", "op": e["op"], "a": expected_operand(e["a"], npool)}
+    l, r = expected_operand(e["l"], npool), expected_operand(e["r"], npool)
+    if e["op"] == "-":
+        if e["l"]["t"] == "const":
+            return {"t": "arith", "op": "+", "l": {"t": "unary", "op": "neg", "a": r}, "r": l}
+        if e["r"]["t"] == "const":
+            return {"t": "arith", "op": "+", "l": l, "r": {"t": "const", "v": (-unhex(e["r"]["v"])).hex()}}
+        return {"t": "arith", "op": "+", "l": l, "r": {"t": "unary", "op": "neg", "a": r}}
+    return {"t": "arith", "op": e["op"], "l": l, "r": r}
+
+
+def same_operand(exp, got):
+    if exp["t"] != got["t"]:
+        return False
+    t = exp["t"]
+    if t == "prior":
+        return exp["ref"] == got["ref"]
+    if t == "const":
+        return unhex(exp["v"]) == unhex(got["v"]) and math.copysign(1, unhex(exp["v"])) == math.copysign(1, unhex(got["v"]))
+    if t == "unary":
+        return exp["op"] == got["op"] and same_operand(exp["a"], got["a"])
+    if t == "arith":
+        return exp["op"] == got["op"] and same_operand(exp["l"], got["l"]) and same_operand(exp["r"], got["r"])
+    return False
+
+
+def same_recipe(a, rec, npool):
+    """The driver wrote the comparison the program says, on operand objects that are what the program denotes."""
+    if a["k"] != rec["k"]:
+        return False
+    if a["k"] == "lit":
+        return a["v"] == rec["v"]
+    if a["k"] == "cmp":
+        return a["op"] == rec["op"] and same_operand(expected_operand(a["l"], npool), rec["l"]) \
+            and same_operand(expected_operand(a["r"], npool), rec["r"])
+    if a["k"] == "native":
+        return all(same_operand(expected_operand(a[s], npool), rec[s]) for s in ("x", "y", "z"))
+    return a["op"] == rec["op"] and same_recipe(a["first"], rec["first"], npool) \
+        and same_operand(expected_operand(a["other"], npool), rec["other"])
+
+
+def expected_built(a, npool):
+    """Assertion object expected for simple comparisons and two-link chains (None: not decided here)."""
     k = a["k"]
     if k == "lit":
-        return None if a["v"] else {"k": "lit", "v": False}
+        return {"k": "lit", "v": a["v"]}
     if k == "cmp":
-        l, r = MG.expected_tree(a["l"]), MG.expected_tree(a["r"])
-        if a["op"] == "<":
-            return {"k": "lt", "l": l, "g": r}
-        if a["op"] == "<=":
-            return {"k": "le", "l": l, "g": r}
-        if a["op"] == ">":
-            return {"k": "lt", "l": r, "g": l}
-        return {"k": "le", "l": r, "g": l}
-    if k == "chain":
-        first = norm_assert(a["first"])
-        o = MG.expected_tree(a["other"])
-        if a["op"] == "<":
-            second = {"k": "lt", "l": first["g"], "g": o}
-        elif a["op"] == "<=":
-            second = {"k": "le", "l": first["g"], "g": o}
-        elif a["op"] == ">":
-            second = {"k": "lt", "l": o, "g": first["l"]}
+        l, r = expected_operand(a["l"], npool), expected_operand(a["r"], npool)
+        if a["op"] in ("<", "<="):
+            return {"k": "lt" if a["op"] == "<" else "le", "l": l, "g": r}
+        return {"k": "lt" if a["op"] == ">" else "le", "l": r, "g": l}
+    if k == "chain" and a["first"]["k"] == "cmp":
+        first = expected_built(a["first"], npool)
+        o = expected_operand(a["other"], npool)
+        if a["op"] in ("<", "<="):
+            second = {"k": "lt" if a["op"] == "<" else "le", "l": first["g"], "g": o}
         else:
-            second = {"k": "le", "l": o, "g": first["l"]}
+            second = {"k": "lt" if a["op"] == ">" else "le", "l": o, "g": first["l"]}
         return {"k": "and", "a": first, "b": second}
-    raise ValueError(k)
+    return None
 
 
 def same_assert(e, g):
@@ -146,73 +298,337 @@ def same_assert(e, g):
         return e["v"] == g["v"]
     if e["k"] == "and":
         return same_assert(e["a"], g["a"]) and same_assert(e["b"], g["b"])
-    return MG.same_tree(e["l"], g["l"]) and MG.same_tree(e["g"], g["g"])
+    if e["k"] in ("lt", "le"):
+        return same_operand(e["l"], g["l"]) and same_operand(e["g"], g["g"])
+    return False
+
+
+# ----------------------------------------------------------------------------------------------
+# Coq printers
+# ----------------------------------------------------------------------------------------------
+
+def name_ok(nm):
+    return not (nm.startswith("_") or nm in ("id", "cls") or not all(32 <= ord(ch) < 127 for ch in nm))
+
+
+def operand_representable(t):
+    k = t["t"]
+    if k in ("prior", "const"):
+        return True
+    if k == "arith":
+        return t["op"] in MG.OPS and name_ok(t["ln"]) and name_ok(t["rn"]) \
+            and operand_representable(t["l"]) and operand_representable(t["r"])
+    return False
+
+
+def assertion_representable(a):
+    k = a["k"]
+    if k == "lit":
+        return True
+    if k == "and":
+        return assertion_representable(a["a"]) and assertion_representable(a["b"])
+    if k in ("lt", "le"):
+        return operand_representable(a["l"]) and operand_representable(a["g"])
+    if k == "lowb":
+        return assertion_representable(a["a"]) and operand_representable(a["g"])
+    if k == "grb":
+        return assertion_representable(a["a"]) and operand_representable(a["l"])
+    return False
+
+
+def recipe_representable(r):
+    k = r["k"]
+    if k == "lit":
+        return True
+    if k == "cmp":
+        return operand_representable(r["l"]) and operand_representable(r["r"])
+    if k == "native":
+        return operand_representable(r["y"]) and operand_representable(r["z"])
+    return recipe_representable(r["first"]) and operand_representable(r["other"])
 
 
 def coq_assert(a):
-    if a["k"] == "lit":
+    k = a["k"]
+    if k == "lit":
         return "(ALit %s)" % cbool(a["v"])
-    if a["k"] == "and":
+    if k == "and":
         return "(AAnd %s %s)" % (coq_assert(a["a"]), coq_assert(a["b"]))
-    return "(%s %s %s)" % ("ALt" if a["k"] == "lt" else "ALe", MG.coq_node(a["l"]), MG.coq_node(a["g"]))
+    if k == "lowb":
+        return "(ALowB %s %s %s)" % (cbool(a["strict"]), coq_assert(a["a"]), MG.coq_node(a["g"]))
+    if k == "grb":
+        return "(AGrB %s %s %s)" % (cbool(a["strict"]), MG.coq_node(a["l"]), coq_assert(a["a"]))
+    return "(%s %s %s)" % ("ALt" if k == "lt" else "ALe", MG.coq_node(a["l"]), MG.coq_node(a["g"]))
+
+
+def coq_recipe(r):
+    k = r["k"]
+    if k == "lit":
+        return "(RLit %s)" % cbool(r["v"])
+    if k == "cmp":
+        return "(RCmp %s %s %s)" % (COPS[r["op"]], MG.coq_node(r["l"]), MG.coq_node(r["r"]))
+    if k == "native":
+        # Python evaluates  x < y < z  as  (x < y) and (y < z); the first object is truthy, so the value is  y < z
+        return "(RCmp %s %s %s)" % (COPS[r["op"]], MG.coq_node(r["y"]), MG.coq_node(r["z"]))
+    return "(RChain %s %s %s)" % (coq_recipe(r["first"]), COPS[r["op"]], MG.coq_node(r["other"]))
+
+
+def tree_in_model(t):
+    """Shapes the Coq walk (status) covers: tuple members that are priors or constants; attributes of a Model that are
+    not constructor arguments are constants; compound names printable."""
+    k = t["t"]
+    if k in ("prior", "const"):
+        return True
+    if k == "arith":
+        return t["op"] in MG.OPS and tree_in_model(t["l"]) and tree_in_model(t["r"])
+    if k == "tuple":
+        return all(c["t"] in ("prior", "const") for _, c in t["members"])
+    if k == "model":
+        ctor = [a for a, _, _ in MG.SIGNATURES[t["cls"]]]
+        return all(tree_in_model(c) and (n in ctor or c["t"] == "const") for n, c in t["attrs"])
+    if k == "coll":
+        return all(tree_in_model(c) and c["t"] != "tuple" for _, c in t["attrs"])
+    return False
+
+
+EXC = {"KeyError": "EKey", "ZeroDivisionError": "EZero", "AttributeError": "EAttr", "TypeError": "EType"}
+
+
+def coq_obs(v):
+    if "ok" in v:
+        return "{| o_v := VOk %s; o_fit := false |}" % MG.coq_ival(v["ok"])
+    tag = {"limit": "VLimit", "assert": "VAssert", "length": "VLength"}.get(v["v"])
+    if tag is None:
+        if v.get("exc") not in EXC:
+            return None
+        tag = "(VError %s)" % EXC[v["exc"]]
+    return "{| o_v := %s; o_fit := %s |}" % (tag, cbool(v.get("fit", False)))
+
+
+# ----------------------------------------------------------------------------------------------
+# oracle: the property statement evaluated directly on the numbers
+# ----------------------------------------------------------------------------------------------
+
+class Foreign(Exception):
+    pass
+
+
+def apply_op(op, a, b):
+    if op == "+":
+        return a + b
+    if op == "-":
+        return a - b
+    if op == "*":
+        return a * b
+    if op == "/":
+        return a / b           # Python float division: ZeroDivisionError for a zero divisor
+    raise ValueError(op)
 
 
 def eval_operand(e, vec):
     t = e["t"]
     if t == "prior":
         return vec[e["ref"]]
+    if t == "foreign":
+        raise Foreign()
     if t == "const":
         return unhex(e["v"])
-    a, b = eval_operand(e["l"], vec), eval_operand(e["r"], vec)
-    return C01.apply_op(e["op"], a, b)
+    if t == "unary":
+        a = eval_operand(e["a"], vec)
+        return -a if e["op"] == "neg" else abs(a)
+    return apply_op(e["op"], eval_operand(e["l"], vec), eval_operand(e["r"], vec))
+
+
+def cmp_values(op, x, y):
+    return {"<": x < y, "<=": x <= y, ">": x > y, ">=": x >= y}[op]
+
+
+def chain_ends(a, vec):
+    """(lowest, greatest) operand values of a comparison / chain, as the library defines chains:
+    `first < c` compares the greatest end with c, `first > c` compares the lowest end with c."""
+    if a["k"] == "cmp":
+        x, y = eval_operand(a["l"], vec), eval_operand(a["r"], vec)
+        return (x, y) if a["op"] in ("<", "<=") else (y, x)
+    lo, hi = chain_ends(a["first"], vec)
+    o = eval_operand(a["other"], vec)
+    return (lo, o) if a["op"] in ("<", "<=") else (o, hi)
 
 
 def eval_assert(a, vec):
-    """Evaluate the inequality directly on the numbers (from the program, not from the objects)."""
+    """Every inequality of the assertion, evaluated on the numbers (from the program, not from the objects)."""
     k = a["k"]
     if k == "lit":
         return bool(a["v"])
     if k == "cmp":
-        x, y = eval_operand(a["l"], vec), eval_operand(a["r"], vec)
-        return {"<": x < y, "<=": x <= y, ">": x > y, ">=": x >= y}[a["op"]]
-    first = a["first"]
-    if not eval_assert(first, vec):
-        return False
-    fl, fr = eval_operand(first["l"], vec), eval_operand(first["r"], vec)
-    lower, greater = (fl, fr) if first["op"] in ("<", "<=") else (fr, fl)
+        return cmp_values(a["op"], eval_operand(a["l"], vec), eval_operand(a["r"], vec))
+    if k == "native":
+        # only  y op z  reaches add_assertion (Python semantics, see MANIFEST note)
+        return cmp_values(a["op"], eval_operand(a["y"], vec), eval_operand(a["z"], vec))
+    lo, hi = chain_ends(a["first"], vec)
     o = eval_operand(a["other"], vec)
-    return {"<": greater < o, "<=": greater <= o, ">": lower > o, ">=": lower >= o}[a["op"]]
+    this = cmp_values(a["op"], hi, o) if a["op"] in ("<", "<=") else cmp_values(a["op"], lo, o)
+    return eval_assert(a["first"], vec) and this
 
 
-def eval_all_operands(a, vec):
-    """Evaluate every operand of an assertion (raises ZeroDivisionError if any divides by zero)."""
+def operand_problems(e, vec, out):
+    """Exceptions evaluating an operand can raise on these numbers (every sub-expression is looked at)."""
+    t = e["t"]
+    if t == "foreign":
+        out.add("KeyError")
+        return None
+    if t == "prior":
+        return vec[e["ref"]]
+    if t == "const":
+        return unhex(e["v"])
+    if t == "unary":
+        a = operand_problems(e["a"], vec, out)
+        return None if a is None else (-a if e["op"] == "neg" else abs(a))
+    a, b = operand_problems(e["l"], vec, out), operand_problems(e["r"], vec, out)
+    if a is None or b is None:
+        return None
+    try:
+        return apply_op(e["op"], a, b)
+    except ZeroDivisionError:
+        out.add("ZeroDivisionError")
+        return None
+
+
+def assert_problems(a, vec, out):
     k = a["k"]
     if k == "cmp":
-        eval_operand(a["l"], vec)
-        eval_operand(a["r"], vec)
+        operand_problems(a["l"], vec, out)
+        operand_problems(a["r"], vec, out)
+    elif k == "native":
+        operand_problems(a["y"], vec, out)
+        operand_problems(a["z"], vec, out)
     elif k == "chain":
-        eval_all_operands(a["first"], vec)
-        eval_operand(a["other"], vec)
-    return True
+        assert_problems(a["first"], vec, out)
+        operand_problems(a["other"], vec, out)
 
 
-def coq_verdict(v):
-    if "ok" in v:
-        return "(VOk %s)" % MG.coq_ival(v["ok"])
-    return {"limit": "VLimit", "assert": "VAssert", "length": "VLength"}.get(v["v"])
+def tree_problems(e, vec, out):
+    t = e["t"]
+    if t in ("arith", "unary", "prior", "const"):
+        operand_problems(e, vec, out)
+    elif t == "tuple":
+        for m in e["members"]:
+            tree_problems(m, vec, out)
+    elif t == "model":
+        for arg, _, _ in MG.SIGNATURES[e["cls"]]:
+            tree_problems(e["kw"][arg], vec, out)
+    elif t == "coll":
+        for _, sub in MG.resolve_copies(e)["items"]:
+            tree_problems(sub, vec, out)
+
+
+def wrap_inst(c, inst):
+    if c.get("wrap") == "list":
+        return {"t": "coll", "fields": [["0", inst]]}
+    if c.get("wrap") == "dict":
+        return {"t": "coll", "fields": [["w", inst]]}
+    return inst
+
+
+def wrap_tree(c, tree):
+    if c.get("wrap") == "list":
+        return {"t": "coll", "attrs": [["0", tree]]}
+    if c.get("wrap") == "dict":
+        return {"t": "coll", "attrs": [["w", tree]]}
+    return tree
+
+
+def wrap_path(c, p):
+    return ({"list": ["0"], "dict": ["w"]}.get(c.get("wrap")) or []) + list(p)
+
+
+def eval_assert_unchained(a, vec):
+    """What an assertion evaluates to when a chain of three links is NOT understood as three inequalities but as
+    `truth value of the first two links` compared with the last operand (the reading behind finding chain-3-links)."""
+    if a["k"] == "chain" and a["first"]["k"] == "chain" and arith_like(a["other"]):
+        r = float(eval_assert_unchained(a["first"], vec))
+        return cmp_values(a["op"], r, eval_operand(a["other"], vec))
+    return eval_assert(a, vec)
+
+
+def vector_classes(attached, vec):
+    """Labels computed from the case and the numbers (never from the outcome): chain-3-links applies only where reading the
+    three-link chain as `bool < number` changes the verdict."""
+    cls = set()
+    try:
+        for a in attached:
+            if a["a"]["k"] == "chain" and chain_links(a["a"]) >= 3 and arith_like(a["a"]["other"]) \
+                    and eval_assert(a["a"], vec) != eval_assert_unchained(a["a"], vec):
+                cls.add("chain-3-links")
+    except (ZeroDivisionError, Foreign, IndexError):
+        pass
+    return sorted(cls)
+
+
+def expected_verdicts(c, attached, vec, lims, npool):
+    """-> (strict, ignored); each is ("ok",) | ("fit",) | ("length",) | ("not-ok", {exception names}) | ("error", {names})."""
+    prog = c["program"]
+    if len(vec) != npool:
+        return ("length",), ("length",)
+    tp = set()
+    tree_problems(prog["root"], vec, tp)
+    ignored = ("error", tp) if tp else ("ok",)
+    if not all(lo <= x <= hi for x, (lo, hi) in zip(vec, lims)):
+        return ("fit", "limit"), ignored
+    ap = set()
+    for a in attached:
+        assert_problems(a["a"], vec, ap)
+    if tp or ap:
+        return ("not-ok", tp | ap), ignored
+    truth = all([eval_assert(a["a"], vec) for a in attached])
+    return (("ok",) if truth else ("fit", "assert")), ignored
+
+
+def verdict_matches(exp, got):
+    if exp[0] == "ok":
+        return "ok" in got
+    if exp[0] == "fit":
+        return got.get("v") in ("limit", "assert") and got.get("fit") is True
+    if exp[0] == "length":
+        return got.get("v") == "length"
+    if exp[0] == "error":
+        return got.get("v") == "error" and got.get("exc") in exp[1]
+    if exp[0] == "not-ok":
+        return (got.get("v") == "error" and got.get("exc") in exp[1]) or (got.get("v") == "assert" and got.get("fit") is True)
+    return False
+
+
+def show(got):
+    return "ok" if "ok" in got else "%s%s%s" % (got.get("v"), ":" + got["exc"] if got.get("v") == "error" else "",
+                                                 "" if got.get("fit") or got.get("v") not in ("limit", "assert") else " (NOT a FitException)")
 
 
 def run(ctx):
-    ctx.rule = ("C01 composition programs (uniform and gaussian priors with limits) x 0-3 assertions attached at random Model/Collection "
-                "levels (simple, chained via (a<b)<c / (a<b)>c, on arithmetic expressions, with constants, literal True/False) x vectors "
-                "inside / exactly on / just outside / far outside limits and of wrong length; unit vectors and random instances for the "
-                "oracle. Non-trivial: at least one assertion, or a value on/outside a limit. Distinct = distinct (program, assertions, vector).")
+    ctx.rule = ("C01 composition programs (uniform / gaussian priors, gaussians also with infinite limits) x 0-3 assertions attached to "
+                "random levels (Model, Collection, CompoundPrior attribute; optionally the model is wrapped in a Collection or copy()-ed "
+                "afterwards): simple comparisons, two- and three-link chains via (a<b)<c / (a<b)>c, operands = parameters, constants, "
+                "+ * / - with constants on either side, unary minus / abs, parameters foreign to the model, zero divisors, literal "
+                "True/False, Python-native a<b<c; x vectors inside / exactly on / just outside / far outside limits, NaN, +-inf, "
+                "too short / too long, as list and numpy array; unit vectors and random instances for the oracle. Non-trivial: a value "
+                "on/outside a limit (or NaN/inf), or all values inside and at least one assertion evaluated. "
+                "Distinct = distinct (program, assertions, wrap, vector).")
     ctx.trusted = [
         "Coq 8.16.1 kernel incl. vm_compute; primitive floats",
-        "harness abstraction of live model and assertion objects (two-sided: compared with the tree the program denotes)",
-        "exception classes mapped to {limit, assert, length}",
+        "harness abstraction of live model / operand / assertion objects (raw __dict__ walks; two-sided: operands and tree compared with what the program denotes)",
+        "exception classes mapped to {limit, assert, length, error:<class name>} + isinstance(e, exc.FitException)",
     ]
-    ctx.assumptions = ["every prior used in an assertion belongs to the model", "exception_override config switch is off"]
+    ctx.assumptions = [
+        "theorems carry explicit guards: the instance is constructible on the vector (no division by zero in the model's own arithmetic) and "
+        "every assertion is defined (operands are parameters of the model, no division by zero); outside the guards the code raises "
+        "ZeroDivisionError / KeyError instead of the fit exception (modelled as VError, refuted witnesses in Witness.v, expected exactly by the oracle)",
+        "every assertion sits on a level (Model, Collection, CompoundPrior) reachable from the root by attribute names (levels_wf)",
+        "operands of assertions carry no assertions of their own; tuple members are priors or constants",
+        "out of scope: instance_from_path_arguments / instance_from_prior_name_arguments (not vector routes: they skip limits and the ROOT "
+        "level's assertions but check child levels -- modelled as run_paths, measured in distribution['paths-route'], no verdict)",
+        "out of scope: Python's native chained comparison a < b < c (Python itself reduces it to the last link before the library sees it; "
+        "generated, expected to behave as the last link only)",
+        "unsupported shape, expected to fail loudly: ((a<b)<c) < constant raises TypeError when written (no model is produced)",
+        "subtraction, unary minus, abs in operands: oracle only (the shared tree has no unary node)",
+        "exception_override config switch is off; jax is off",
+    ]
     built = ctx.build()
     n = 110 if ctx.tier == "quick" else 700
     cases = gen_cases(ctx, n)
@@ -232,75 +648,115 @@ def run(ctx):
     coq_cases, coq_ref = [], []
     for i, (c, r) in enumerate(zip(cases, results)):
         prog = c["program"]
+        npool = len(prog["pool"])
         if "exc" in r:
             ctx.count_case(c, True)
             ctx.failure("oracle", "building the model or its assertions raised %s: %s" % (r["exc"], r.get("msg", "")[-300:]), c)
             continue
         r = r["ok"]
-        exp_asserts = [x for x in (norm_assert(a["a"]) for a in c["asserts"]) if x is not None]
-        # two-sided: same set of assertion objects (levels flattened in tree order -> compare as multisets by matching)
-        got = list(r["asserts"])
-        ok_struct = MG.same_tree(MG.expected_tree(prog["root"]), r["tree"]) and len(got) == len(exp_asserts)
-        if ok_struct:
-            rest = list(got)
-            for e in exp_asserts:
-                m = [g for g in rest if same_assert(e, g)]
-                if not m:
-                    ok_struct = False
-                    break
-                rest.remove(m[0])
-        lims = [[unhex(s["lo"]), unhex(s["hi"])] for s in prog["pool"]]
-        if [[unhex(a), unhex(b)] for a, b in r["limits"]] != lims:
-            ok_struct = False
-        if not ok_struct:
+        # ---- two-sided: the live objects are what the program denotes
+        problems = []
+        if not MG.same_tree(wrap_tree(c, MG.expected_tree(prog["root"])), r["tree"]):
+            problems.append("model tree")
+        attached = []          # program assertions that reached a level
+        exp_levels = {}
+        for a, at in zip(c["asserts"], r["attaches"]):
+            links = chain_links(a["a"])
+            if at["built"] is None:
+                if a["a"]["k"] == "chain" and links >= 3 and not arith_like(a["a"]["other"]):
+                    ctx.hist("unsupported-shape", "chain-3-links-constant-last: TypeError when written")
+                    continue
+                problems.append("comparison raised TypeError: %s" % at.get("msg"))
+                continue
+            if not same_recipe(a["a"], at["recipe"], npool):
+                problems.append("operands")
+            eb = expected_built(a["a"], npool)
+            if eb is not None and not same_assert(eb, at["built"]):
+                problems.append("assertion object")
+            ctx.hist("assertion-shape", {"lit": "literal", "native": "python-native-chain"}.get(a["a"]["k"], "%d-link" % links))
+            if a["a"]["k"] == "lit" and a["a"]["v"]:
+                continue       # add_assertion(True) is dropped
+            attached.append(a)
+            exp_levels.setdefault(tuple(wrap_path(c, a["level"])), []).append(at["built"])
+            ctx.hist("level-kind", "compound-prior" if is_arith_level(prog["root"], a["level"]) else
+                     ("root" if not a["level"] else "depth-%d" % len(a["level"])))
+        got_levels = {tuple(l["path"]): l["asserts"] for l in r["levels"]}
+        if exp_levels != got_levels:
+            problems.append("levels")
+        lims = [(unhex(s["lo"]), unhex(s["hi"])) for s in prog["pool"]]
+        if [None if x is None else (unhex(x[0]), unhex(x[1])) for x in r["limits"]] != lims:
+            problems.append("limits")
+        if problems:
             ctx.count_case(c, True)
-            ctx.failure("correspondence", "the composition/assertion API built different objects than the program denotes", c,
-                        impl={"asserts": r["asserts"], "limits": r["limits"]}, broken={"kind": "correspondence", "name": "two-sided abstraction"})
+            ctx.failure("correspondence", "the composition/assertion API built different objects than the program denotes (%s)" % ", ".join(problems),
+                        c, classes=[], impl={"attaches": r["attaches"], "levels": r["levels"], "limits": r["limits"]},
+                        broken={"kind": "correspondence", "name": "two-sided abstraction"})
             continue
-        npool = len(prog["pool"])
+        ctx.hist("wrap", c.get("wrap") or "none")
+        in_model = MG.tree_ok_for_model(r["tree"]) and tree_in_model(r["tree"]) \
+            and all(recipe_representable(at["recipe"]) and (at["built"] is None or assertion_representable(at["built"])) for at in r["attaches"]) \
+            and all(assertion_representable(x) for l in r["levels"] for x in l["asserts"])
         for vi, (v, run_) in enumerate(zip(c["vectors"], r["runs"])):
             vec = [unhex(x) for x in v]
-            key = {"program": prog, "asserts": c["asserts"], "vec": v}
-            on_edge = any(x <= lo or x >= hi for x, (lo, hi) in zip(vec, lims))
-            ctx.count_case(key, bool(c["asserts"]) or on_edge)
+            key = {"program": prog, "asserts": c["asserts"], "wrap": c.get("wrap"), "vec": v}
+            on_edge = any(not (lo < x < hi) for x, (lo, hi) in zip(vec, lims))
+            inside = len(vec) == npool and all(lo <= x <= hi for x, (lo, hi) in zip(vec, lims))
+            ctx.count_case(key, on_edge or (inside and bool(attached)))
+            ctx.hist("non-trivial-by", "assertion-evaluated" if (inside and attached) else ("limit-only" if on_edge else "trivial"))
             ctx.oracle["cases"] += 1
-            # ---- oracle: the property statement evaluated directly
-            if len(vec) != npool:
-                expect = "length"
-            elif not all(lo <= x <= hi for x, (lo, hi) in zip(vec, lims)):
-                expect = "limit"
-            else:
-                try:
-                    # no short-circuit: a division by zero in any operand is outside the compared domain
-                    truth = all([eval_all_operands(a["a"], vec) and eval_assert(a["a"], vec) for a in c["asserts"]])
-                except ZeroDivisionError:
-                    ctx.hist("skipped", "division-by-zero")
-                    continue
-                expect = "ok" if truth else "assert"
-            if len(vec) == npool and C01.has_division_by_zero(prog["root"], vec):
-                ctx.hist("skipped", "division-by-zero")
-                continue
-            ctx.hist("expected-verdict", expect)
-            s = run_["strict"]
-            got_v = "ok" if "ok" in s else s["v"]
+            exp_s, exp_i = expected_verdicts(c, attached, vec, lims, npool)
+            ctx.hist("expected-verdict", exp_s[0] + (":" + exp_s[1] if exp_s[0] == "fit" else ""))
+            if exp_s[0] in ("ok", "fit") and inside and attached:
+                truths = [eval_assert(a["a"], vec) for a in attached]
+                if truths.count(False) == 1:
+                    ctx.hist("decisive", "exactly-one-assertion-false")
+                    bad = attached[truths.index(False)]["a"]
+                    if bad["k"] == "chain" and eval_assert(bad["first"], vec):
+                        ctx.hist("decisive", "chain-fails-on-last-link-only")
+                for a in attached:
+                    if a["a"]["k"] == "cmp" and a["a"]["l"] != a["a"]["r"] and eval_operand(a["a"]["l"], vec) == eval_operand(a["a"]["r"], vec):
+                        ctx.hist("decisive", "equality-hit-distinct-operands")
+            s, ig = run_["strict"], run_["ignored"]
             msg = None
-            if got_v != expect:
-                msg = "instance_from_vector verdict %s, but evaluating limits/assertions on the numbers gives %s" % (got_v, expect)
-            elif expect == "ok" and not C01.same_inst(C01.expected_instance(prog["root"], vec), s["ok"]):
+            if not verdict_matches(exp_s, s):
+                msg = "instance_from_vector verdict %s, but evaluating limits/assertions on the numbers gives %s" % (show(s), exp_s)
+            elif exp_s[0] == "ok" and not C01.same_inst(wrap_inst(c, C01.expected_instance(prog["root"], vec)), s["ok"]):
                 msg = "accepted vector produced a different instance than the composition denotes"
-            ig = run_["ignored"]
-            if msg is None and len(vec) == npool and ("ok" not in ig or not C01.same_inst(C01.expected_instance(prog["root"], vec), ig["ok"])):
-                msg = "ignore_prior_limits=True did not produce the instance (%s)" % (ig.get("v"),)
+            elif not verdict_matches(exp_i, ig):
+                msg = "ignore_prior_limits=True gave %s, expected %s" % (show(ig), exp_i)
+            elif exp_i[0] == "ok" and not C01.same_inst(wrap_inst(c, C01.expected_instance(prog["root"], vec)), ig["ok"]):
+                msg = "ignore_prior_limits=True produced a different instance than the composition denotes"
+            elif "numpy" in run_ and exp_s[0] in ("ok", "fit", "length") and (
+                    show(run_["numpy"]) != show(s) or ("ok" in s and not C01.same_inst(s["ok"], run_["numpy"]["ok"]))):
+                # (where an operand divides by zero numpy floats give inf/nan instead of ZeroDivisionError: outside the guards)
+                msg = "a numpy vector gives %s, the same list gives %s" % (show(run_["numpy"]), show(s))
             if msg:
                 ctx.oracle["failures"] += 1
-                ctx.failure("oracle", msg, dict(c, vectors=[v], units=[], n_random=0), impl=run_)
-            cs, ci_ = coq_verdict(s), coq_verdict(ig)
-            if cs and ci_ and MG.tree_ok_for_model(r["tree"]):
-                coq_cases.append("{| c_tree := %s; c_lims := %s; c_asserts := %s; c_vec := %s; c_strict := %s; c_ignored := %s |}" % (
-                    MG.coq_node(r["tree"]),
-                    clist(["(%s, (%s, %s))" % (cnat(q), cfloat(lo), cfloat(hi)) for q, (lo, hi) in enumerate(lims)]),
-                    clist([coq_assert(a) for a in r["asserts"]]),
-                    clist([cfloat(x) for x in vec]), cs, ci_))
+                ctx.failure("oracle", msg, dict(c, vectors=[v], units=[], n_random=0), classes=vector_classes(attached, vec), impl=run_)
+            if "paths" in run_:
+                p = run_["paths"]
+                ctx.hist("paths-route", "same verdict as the vector route" if show(p) == show(s) else
+                         "vector route %s, path-argument route %s" % (show(s), show(p)))
+            obs = [coq_obs(s), coq_obs(ig), coq_obs(run_["paths"]) if "paths" in run_ else "None"]
+            if not in_model:
+                ctx.hist("correspondence", "dropped: shape outside the Coq tree (subtraction / unary operand, compound names)")
+            elif None in obs:
+                ctx.hist("correspondence", "dropped: exception class outside the enum")
+            else:
+                ctx.hist("correspondence", "compared")
+                atts = []
+                for a, at in zip(c["asserts"], r["attaches"]):
+                    atts.append("{| at_level := %s; at_recipe := %s; at_built := %s |}" % (
+                        MG.coq_path(wrap_path(c, a["level"])), coq_recipe(at["recipe"]),
+                        "None" if at["built"] is None else "(Some %s)" % coq_assert(at["built"])))
+                coq_cases.append("{| c_tree := %s; c_lims := %s; c_attach := %s; c_levels := %s; c_vec := %s; c_strict := %s; "
+                                 "c_ignored := %s; c_paths := %s |}" % (
+                                     MG.coq_node(r["tree"]),
+                                     clist(["(%s, (%s, %s))" % (cnat(q), cfloat(lo), cfloat(hi)) for q, (lo, hi) in enumerate(lims)]),
+                                     clist(atts),
+                                     clist([cpair(MG.coq_path(l["path"]), clist([coq_assert(x) for x in l["asserts"]])) for l in r["levels"]]),
+                                     clist([cfloat(x) for x in vec]), obs[0], obs[1],
+                                     obs[2] if obs[2] == "None" else "(Some %s)" % obs[2]))
                 coq_ref.append((i, vi))
         # unit-vector route: same verdict as pushing the unit vector through the priors
         for u, ur in zip(c["units"], r["unit_runs"]):
@@ -308,23 +764,21 @@ def run(ctx):
             if ur["vec"] is None:
                 continue
             vec = [unhex(x) for x in ur["vec"]]
-            if C01.has_division_by_zero(prog["root"], vec):
-                continue
-            inside = all(lo <= x <= hi for x, (lo, hi) in zip(vec, lims))
-            try:
-                truth = all([eval_all_operands(a["a"], vec) and eval_assert(a["a"], vec) for a in c["asserts"]])
-            except ZeroDivisionError:
-                continue
-            expect = "ok" if (inside and truth) else ("limit" if not inside else "assert")
+            exp_s, exp_i = expected_verdicts(c, attached, vec, lims, npool)
             s = ur["strict"]
-            got_v = "ok" if "ok" in s else s["v"]
-            if got_v != expect:
+            if exp_s[0] == "not-ok" or exp_i[0] == "error":
+                # outside the guards: the priors hand out numpy floats, whose division by zero gives inf/nan instead of raising
+                ctx.hist("unit-route", "skipped: division by zero on these values")
+                continue
+            ctx.hist("unit-route", "compared")
+            if not verdict_matches(exp_s, s):
                 ctx.oracle["failures"] += 1
-                ctx.failure("oracle", "instance_from_unit_vector verdict %s, expected %s" % (got_v, expect),
-                            dict(c, vectors=[], units=[u], n_random=0), impl=ur)
-            elif "ok" not in ur["ignored"]:
+                ctx.failure("oracle", "instance_from_unit_vector verdict %s, expected %s" % (show(s), exp_s),
+                            dict(c, vectors=[], units=[u], n_random=0), classes=vector_classes(attached, vec), impl=ur)
+            elif not verdict_matches(exp_i, ur["ignored"]):
                 ctx.oracle["failures"] += 1
-                ctx.failure("oracle", "instance_from_unit_vector(ignore_prior_limits=True) raised", dict(c, vectors=[], units=[u]), impl=ur)
+                ctx.failure("oracle", "instance_from_unit_vector(ignore_prior_limits=True) gave %s, expected %s" % (show(ur["ignored"]), exp_i),
+                            dict(c, vectors=[], units=[u]), classes=[], impl=ur)
         # random instances: whatever is returned satisfies limits and assertions
         for rr in r["random"]:
             ctx.oracle["cases"] += 1
@@ -340,29 +794,30 @@ def run(ctx):
                 if bad:
                     msg = "random_instance returned a value outside the limits of parameter %d" % bad[0]
                 elif len(drawn) == npool:
-                    vec = [drawn[i] for i in range(npool)]
-                    try:
-                        if not all([eval_all_operands(a["a"], vec) and eval_assert(a["a"], vec) for a in c["asserts"]]):
-                            msg = "random_instance returned an instance that violates an assertion"
-                    except ZeroDivisionError:
-                        pass
+                    vec = [drawn[k] for k in range(npool)]
+                    exp_s, _ = expected_verdicts(c, attached, vec, lims, npool)
+                    if exp_s[0] not in ("ok", "not-ok"):     # (not-ok: outside the guards, numpy floats do not raise)
+                        msg = "random_instance returned an instance although the numbers give %s" % (exp_s,)
                 ctx.hist("random-instance", "checked-%d-of-%d-values" % (len(drawn), npool) if len(drawn) < npool else "checked-all-values")
                 if msg:
                     ctx.oracle["failures"] += 1
-                    ctx.failure("oracle", msg, dict(c, vectors=[], units=[]), impl=rr)
-            elif rr["v"] not in ("assert", "limit"):
+                    ctx.failure("oracle", msg, dict(c, vectors=[], units=[]),
+                                classes=vector_classes(attached, [drawn[k] for k in range(npool)]) if len(drawn) == npool else [], impl=rr)
+            elif not (rr["v"] in ("assert", "limit") and rr.get("fit")) and not (
+                    rr["v"] == "error" and rr.get("exc") in ("KeyError", "ZeroDivisionError")
+                    and (c.get("n_foreign") or "/" in json.dumps(c["asserts"]) + json.dumps(prog["root"]))):
                 ctx.oracle["failures"] += 1
-                ctx.failure("oracle", "random_instance raised %s" % rr.get("exc"), dict(c, vectors=[], units=[]), impl=rr)
+                ctx.failure("oracle", "random_instance raised %s" % show(rr), dict(c, vectors=[], units=[]), classes=[], impl=rr)
         if i % 25 == 0:
-            ctx.sample({"asserts": c["asserts"], "n_priors": npool, "verdicts": [("ok" if "ok" in x["strict"] else x["strict"]["v"]) for x in r["runs"]]})
+            ctx.sample({"asserts": c["asserts"], "wrap": c.get("wrap"), "n_priors": npool, "verdicts": [show(x["strict"]) for x in r["runs"]]})
     if os.path.exists(os.path.join(common.COQ, "C03", "Model.vo")):
         hdr = ctx.header(["Common.PyFloat", "Model"]).replace("From PAFC03 Require Import Model.",
                                                               "From PAFC01 Require Import ModelTree.\nFrom PAFC03 Require Import Model.")
-        bad, log = ctx.eval_cases(hdr, "case", "check_case", coq_cases, shard=60)
+        bad, log = ctx.eval_cases(hdr, "case", "check_case_chain_fix" if CHAIN_FIX_APPLIED else "check_case", coq_cases, shard=60)
         for b in (bad or [])[:5]:
             i, vi = coq_ref[b]
             c = cases[i]
-            ctx.failure("correspondence", "Coq gate model and implementation disagree on verdict/instance",
+            ctx.failure("correspondence", "Coq level-by-level model and implementation disagree (operators / add_assertion / verdict / instance)",
                         dict(c, vectors=[c["vectors"][vi]], units=[], n_random=0), impl=results[i]["ok"]["runs"][vi],
                         broken={"kind": "correspondence", "name": "C03.check_case"}, found_input=False)
     else:
